@@ -1396,7 +1396,17 @@ func (e *Entry) Find(name string) *Entry {
 		for e.Parent != nil {
 			e = e.Parent
 		}
-		if prefix, _ := getPrefix(parts[0]); prefix != "" {
+		prefix, _ := getPrefix(parts[0])
+		// A path written in a submodule starts in the tree of the module
+		// the submodule belongs to, with or without a prefix: the
+		// submodule's own tree is a private copy of its part of it.
+		inSubmodule := false
+		if contextNode != nil {
+			if r := RootNode(contextNode); r != nil && r.Kind() == "submodule" {
+				inSubmodule = true
+			}
+		}
+		if prefix != "" || inSubmodule {
 			mod := FindModuleByPrefix(contextNode, prefix)
 			if mod == nil {
 				e.addError(fmt.Errorf("cannot find module giving prefix %q within context entry %q", prefix, e.Path()))
